@@ -205,4 +205,78 @@ theorem allSafe_append : ∀ (a b : List Op) (r : Repo),
   | o :: a, b, r => by
     simp only [List.cons_append, allSafe, allSafe_append a b (apply r o), applyAll, List.foldl_cons, Bool.and_assoc]
 
+/-! ### snapshot-replacing commands: presence of snapshot files along a run -/
+
+theorem hasSnap_iff (r : Repo) (id : Nat) : hasSnap r id = true ↔ ∃ s ∈ r.snaps, s.id = id := by
+  simp [hasSnap]
+
+theorem hasSnap_apply_of_ne (r : Repo) (o : Op) (id : Nat) (ho : o ≠ .removeSnap id) (h : hasSnap r id = true) :
+    hasSnap (apply r o) id = true := by
+  rw [hasSnap_iff] at h ⊢
+  obtain ⟨s, hs, hid⟩ := h
+  cases o with
+  | writeSnap t => exact ⟨s, by simp [apply, hs], hid⟩
+  | removeSnap j =>
+    refine ⟨s, ?_, hid⟩
+    have hj : j ≠ id := fun e => ho (by rw [e])
+    simp only [apply, List.mem_filter, bne_iff_ne, ne_eq]
+    exact ⟨hs, by rw [hid]; exact fun e => hj e.symm⟩
+  | writePack _ => exact ⟨s, hs, hid⟩
+  | removePack _ => exact ⟨s, hs, hid⟩
+  | writeIndex _ => exact ⟨s, hs, hid⟩
+  | removeIndex _ => exact ⟨s, hs, hid⟩
+  | other => exact ⟨s, hs, hid⟩
+
+theorem hasSnap_applyAll (id : Nat) : ∀ (ops : List Op) (r : Repo), (∀ o ∈ ops, o ≠ .removeSnap id) →
+    hasSnap r id = true → hasSnap (applyAll r ops) id = true
+  | [], _, _, h => h
+  | o :: ops, r, hne, h => by
+    simp only [applyAll, List.foldl_cons]
+    exact hasSnap_applyAll id ops (apply r o) (fun o' ho' => hne o' (List.mem_cons_of_mem _ ho'))
+      (hasSnap_apply_of_ne r o id (hne o List.mem_cons_self) h)
+
+theorem hasSnap_writeSnap (r : Repo) (s : Snap) : hasSnap (apply r (.writeSnap s)) s.id = true := by
+  simp [hasSnap, apply]
+
+/-- along a run that removes no snapshot `id`, a snapshot present at the start is present in every prefix state -/
+theorem hasSnap_prefixStates (id : Nat) : ∀ (ops : List Op) (r : Repo), (∀ o ∈ ops, o ≠ .removeSnap id) →
+    hasSnap r id = true → ∀ r' ∈ prefixStates r ops, hasSnap r' id = true
+  | [], r, _, h, r', hr' => by
+    simp only [prefixStates, List.mem_singleton] at hr'
+    rw [hr']; exact h
+  | o :: ops, r, hne, h, r', hr' => by
+    simp only [prefixStates, List.mem_cons] at hr'
+    rcases hr' with rfl | hr'
+    · exact h
+    · exact hasSnap_prefixStates id ops (apply r o) (fun o' ho' => hne o' (List.mem_cons_of_mem _ ho'))
+        (hasSnap_apply_of_ne r o id (hne o List.mem_cons_self) h) r' hr'
+
+theorem prefixStates_append : ∀ (a b : List Op) (r r' : Repo),
+    r' ∈ prefixStates r (a ++ b) ↔ r' ∈ prefixStates r a ∨ r' ∈ prefixStates (applyAll r a) b
+  | [], b, r, r' => by
+    simp only [List.nil_append, prefixStates, List.mem_singleton, applyAll, List.foldl_nil]
+    constructor
+    · exact Or.inr
+    · rintro (rfl | h)
+      · cases b <;> simp [prefixStates]
+      · exact h
+  | o :: a, b, r, r' => by
+    simp only [List.cons_append, prefixStates, List.mem_cons, applyAll, List.foldl_cons]
+    rw [prefixStates_append a b (apply r o) r']
+    simp only [applyAll, or_assoc]
+
+theorem firstLost_go_none (succ : List (Nat × Nat)) (olds : List Nat) : ∀ (ops : List Op) (r : Repo) (k : Nat),
+    firstLost.go succ olds r k ops = none ↔ ∀ r' ∈ prefixStates r ops, noneLost r' succ olds = true
+  | [], r, k => by simp [firstLost.go, prefixStates]
+  | o :: ops, r, k => by
+    simp only [firstLost.go, prefixStates, List.mem_cons, forall_eq_or_imp]
+    by_cases hc : noneLost r succ olds = true
+    · simp [hc, firstLost_go_none succ olds ops (apply r o) (k + 1)]
+    · simp [hc]
+
+/-- the driver's loss monitor (`firstLost`) answers `none` exactly when no prefix state has lost a snapshot. -/
+theorem firstLost_none (succ : List (Nat × Nat)) (olds : List Nat) (r : Repo) (ops : List Op) :
+    firstLost succ olds r ops = none ↔ ∀ r' ∈ prefixStates r ops, noneLost r' succ olds = true :=
+  firstLost_go_none succ olds ops r 0
+
 end Rustic.Repo
